@@ -174,6 +174,42 @@ def run(fx, chk, tier):
                 break
             if good:
                 closure_ok[n_["init"]["def"]] = "bound to a local that is only called, every call under `?`"
+    #   * passed to a local function whose corresponding parameter is only ever called, every call under `?` (or as the tail
+    #     value): `read_n(reader, n, |r| Ok(Entry { a: r.read_u32()?, .. }))` with `out.push(read_one(reader)?)` inside read_n
+    for fid_, fn_ in sorted(fx.fns.items()):
+        root_ = hirq.body_root(fn_) if not fn_.get("derived") else None
+        if root_ is None:
+            continue
+        for n_, ps_ in hirq.walk(root_):
+            if n_.get("k") not in ("call", "mcall"):
+                continue
+            g_id = n_.get("resolved") or n_.get("fn")
+            g_ = fx.fns.get(g_id)
+            if g_ is None:
+                continue
+            args_ = ([n_["recv"]] if n_.get("k") == "mcall" else []) + list(n_.get("args", []))
+            for i_, a_ in enumerate(args_):
+                if a_.get("k") != "closure" or a_.get("def") not in iof:
+                    continue
+                params_ = (g_.get("hir") or {}).get("params", [])
+                pname = params_[i_].get("name") if i_ < len(params_) else None
+                groot = hirq.body_root(g_)
+                if not pname or groot is None:
+                    continue
+                uses = [(x, pp) for x, pp in hirq.walk(groot) if x.get("k") == "path" and x.get("res") == "local" and x.get("name") == pname]
+                tails_g = tail_nodes(groot)
+                good = bool(uses)
+                for x, pp in uses:
+                    call_ = pp[-1] if pp else None
+                    if call_ is None or call_.get("k") != "call" or call_.get("f") is not x:
+                        good = False
+                        break
+                    outer = pp[-2] if len(pp) >= 2 else None
+                    if not ((outer is not None and outer.get("k") == "try") or id(call_) in tails_g):
+                        good = False
+                        break
+                if good:
+                    closure_ok[a_["def"]] = "handed to %s, which only calls it, every call under `?`" % g_["name"]
     # ---- R1b
     for fid in sorted(iof):
         fn = fx.fns[fid]
